@@ -277,7 +277,10 @@ def execLine (r : RS) (line : String) : RS :=
     match parseFlag "nest" n, parseFlag "trim" t, stripPrefix "root=" spell with
     | some (some n), some (some t), some _ => { r with pops := Dict.set r.pops p { nest := n, trim := t } }
     | _, _, _ => bad
-  | ["rule", p, d, f, e, a] =>
+  | "rule" :: p :: d :: f :: e :: a :: opts =>
+    -- `cont=<type>`: the container type the program passes `file_exts` in (list, set, generator, ...): the
+    -- rule keeps the set of its elements whatever the container
+    if !opts.all optionTok then bad else
     match Dict.get? r.pops p, parsePathTok d, (stripPrefix "fac=" f).bind String.toNat?,
           stripPrefix "exts=" e, stripPrefix "args=" a with
     | some decl, some dir, some fac, some exts, some args =>
